@@ -29,7 +29,7 @@ SeqSet(q) == {q[k] : k \in 1..Len(q)}
 
 MonInit == [ seen |-> <<>>, pushedId |-> <<>>, consumed |-> 0, strangers |-> {},
              delivered |-> {}, dropped |-> {}, answered |-> {}, faulty |-> FALSE,
-             closed |-> FALSE, mode |-> "free", busy |-> FALSE, done |-> {} ]
+             closed |-> FALSE, mode |-> "free", busy |-> FALSE, done |-> {}, damaged |-> {}, damagedTags |-> {} ]
 
 TInit == /\ l = 1 /\ st = InitState /\ drift = FALSE /\ mon = MonInit /\ viol = {}
          /\ stats = [cases |-> 0, drifted |-> 0, firstDrift |-> "", polls |-> 0, lostCases |-> 0,
@@ -65,6 +65,7 @@ ModelStep(s, e) ==
     [] e.ev = "reply" -> Reply(s, e.id)
     [] e.ev \in {"stray", "dup"} -> Stray(s, e.id)
     [] e.ev = "garbage" -> Garbage(s)
+    [] e.ev = "badbody" -> BadBody(s, e.id)
     [] e.ev = "close" -> Close(s)
     [] e.ev = "mode" -> [s EXCEPT !.sendMode = e.m]
     [] OTHER -> s
@@ -75,6 +76,7 @@ ModelApplicable(s, e) ==
     [] e.ev = "drop" /\ ~Has(e, "skipped") -> e.t \in Id /\ FutLive(s, e.t)
     [] e.ev = "dropc" /\ ~Has(e, "skipped") -> s.cpc # "idle"
     [] e.ev \in {"reply", "stray", "dup"} -> e.id \in 1..(N+1) /\ e.tag = Tag(s)
+    [] e.ev = "badbody" -> e.id \in Id /\ e.tag = Tag(s)
     [] OTHER -> TRUE
 
 NewSent(s0, s1) == SubSeq(s1.sent, Len(s0.sent) + 1, Len(s1.sent))
@@ -117,6 +119,7 @@ MonEvent(m, e) ==
     [] e.ev = "reply" -> [m EXCEPT !.pushedId = Append(@, e.id), !.answered = @ \cup {e.id}]
     [] e.ev \in {"stray", "dup"} -> [m EXCEPT !.pushedId = Append(@, e.id), !.faulty = TRUE]
     [] e.ev = "garbage" -> [m EXCEPT !.pushedId = Append(@, 0), !.faulty = TRUE]
+    [] e.ev = "badbody" -> [m EXCEPT !.pushedId = Append(@, e.id), !.answered = @ \cup {e.id}, !.damaged = @ \cup {e.id}, !.damagedTags = @ \cup {e.tag}]
     [] e.ev = "close" -> [m EXCEPT !.faulty = TRUE, !.closed = TRUE]
     [] e.ev = "mode" -> [m EXCEPT !.mode = e.m]
     [] e.ev = "drop" /\ ~Has(e, "skipped") -> [m EXCEPT !.dropped = @ \cup {e.t}]
@@ -140,8 +143,11 @@ EventViol(m, m1, s1, dr, e) ==
       \cup (IF e.res.tag \in m1.strangers THEN {V("NoStranger", e, "unsolicited reply delivered")} ELSE {})
    ELSE {})
   \cup
-  (IF e.ev = "poll" /\ e.res.state = "err" /\ ~m.faulty
+  (IF e.ev = "poll" /\ e.res.state = "err" /\ ~m.faulty /\ e.t \notin m.damaged
    THEN {V("ErrWithoutFault", e, e.res.err)} ELSE {})
+  \cup
+  (IF e.ev = "poll" /\ e.res.state = "ok" /\ e.res.tag \in m.damagedTags
+   THEN {V("DamagedReplyDeliveredAsValue", e, "")} ELSE {})
   \cup
   (IF e.ev \in {"rpc", "pollc"} /\ Has(e, "res") /\ e.res.ret = "err" /\ ~m.faulty
       /\ (IF Has(e, "good") THEN e.good ELSE TRUE) /\ e.ev = "rpc"
